@@ -31,6 +31,7 @@ func init() {
 			{ID: "R01i", Floor: 2, Doc: "streams read through the non-seekable adapter are positioned by counting every byte (= R03d)", Run: ruleR03d},
 			{ID: "R01j", Floor: 1 + 1 + 4, Doc: "the on-disk index keeps every record handed to it (sorted, none dropped), so index-backed readers see what sequential readers see (= R11b)", Run: ruleR11b},
 			{ID: "R01k", Floor: 2 + 2 + 4, Doc: "put de-duplication decides at CID/multihash granularity, never by bare digest: no block that was put is silently left out (= R04a)", Run: ruleR04a},
+			{ID: "R01l", Floor: 2, Doc: "index generation decides per section by its own CID (identity and size gates), so an index-backed reader sees every indexable block a sequential reader sees (= R03c)", Run: ruleR03c},
 		},
 	})
 }
